@@ -246,6 +246,13 @@ vbi_pfc_demux_feed		(vbi_pfc_demux *	dx,
 			goto desynced;
 
 		if (pgno != dx->block.pgno) {
+			if ((pgno ^ dx->block.pgno) & 0xF00) {
+				/* Header of another magazine. With parallel
+				   page transmission our page continues, with
+				   serial transmission it is complete. */
+				return TRUE;
+			}
+
 			dx->n_packets = 0;
 			return TRUE;
 		}
